@@ -417,7 +417,32 @@ type c21ConcResult struct {
 	writesRef int
 }
 
-func c21RunConcOnce(c *c21Conc, watchdog time.Duration) (c21ConcResult, bool) {
+// c21AllParked reports whether every goroutine started by c21RunConcOnce is blocked
+// (chan receive / select / sync.Cond.Wait / semacquire ...), i.e. none is runnable.
+func c21AllParked() bool {
+	buf := make([]byte, 4<<20)
+	buf = buf[:runtime.Stack(buf, true)]
+	found := false
+	for _, g := range bytes.Split(buf, []byte("\n\n")) {
+		if !bytes.Contains(g, []byte("c21RunConcOnce.func")) || bytes.Contains(g, []byte("c21AllParked")) {
+			continue
+		}
+		found = true
+		i, j := bytes.IndexByte(g, '['), bytes.IndexByte(g, ']')
+		if i < 0 || j < i {
+			return false
+		}
+		st := string(g[i+1 : j])
+		for _, busy := range []string{"runnable", "running", "syscall", "sleep", "GC", "waiting", "IO wait", "preempted", "copystack"} {
+			if len(st) >= len(busy) && st[:len(busy)] == busy {
+				return false
+			}
+		}
+	}
+	return found
+}
+
+func c21RunConcOnce(c *c21Conc, watchdog time.Duration) (c21ConcResult, string) {
 	res := &c21ConcResult{} // owned by the goroutines until wg.Wait() returned; never touched after a watchdog hit
 	pool := &sync.Pool{New: func() interface{} { return pipe.NewFixedBuffer(make([]byte, c.Cap)) }}
 	var p *pipe.Pipe
@@ -541,38 +566,56 @@ func c21RunConcOnce(c *c21Conc, watchdog time.Duration) (c21ConcResult, bool) {
 	}()
 	done := make(chan struct{})
 	go func() { wg.Wait(); close(done) }()
-	select {
-	case <-done:
-	case <-time.After(watchdog):
-		return c21ConcResult{}, true
+	// Watchdog. A hang is only reported when it is a proven deadlock: every goroutine of
+	// this case is parked (none runnable/running), so nobody is left to wake anybody up -
+	// a criterion that does not depend on machine load. Anything else that is merely slow
+	// ends as "inconclusive" after the long timeout.
+	deadline := time.After(watchdog)
+	for wait := 3 * time.Second; ; {
+		select {
+		case <-done:
+		case <-time.After(wait):
+			if c21AllParked() {
+				select {
+				case <-done: // finished while we looked
+				default:
+					return c21ConcResult{}, "deadlock"
+				}
+			} else {
+				continue
+			}
+		case <-deadline:
+			return c21ConcResult{}, "slow"
+		}
+		break
 	}
 	res.accepted = accepted
 	if c.Pooled {
 		p.Release(pool)
 	}
-	return *res, false
+	return *res, ""
 }
 
-func c21CheckConc(tb ev.TB, rec *ev.Rec, c *c21Conc) {
+func c21CheckConc(outer, tb ev.TB, rec *ev.Rec, c *c21Conc) {
 	fpr := fmt.Sprintf("conc:%+v", *c)
 	classes := []string{"concurrent", "conc-end-" + c.End}
 	if c.Pooled {
 		classes = append(classes, "conc-pooled")
 	}
 	w := map[string]any{"concurrent": c}
-	res, hung := c21RunConcOnce(c, 10*time.Second)
-	if hung {
-		// a hang must reproduce in isolation to count (operations take microseconds)
-		res, hung = c21RunConcOnce(c, 30*time.Second)
-		if hung {
-			buf := make([]byte, 1<<16)
-			buf = buf[:runtime.Stack(buf, true)]
-			os.Stderr.Write(buf)
-			rec.Case(fpr, true, append(classes, "conc-hang")...)
-			rec.Fail(tb, "deadlock", w, "reader/writer/closer did not finish within 10s and again (fresh pipe) within 30s: %+v", *c)
-			return
-		}
-		rec.Excluded("conc-watchdog-hit-not-reproduced")
+	res, hung := c21RunConcOnce(c, 120*time.Second)
+	if hung == "deadlock" {
+		buf := make([]byte, 1<<18)
+		buf = buf[:runtime.Stack(buf, true)]
+		os.Stderr.Write(buf)
+		rec.Case(fpr, true, append(classes, "conc-deadlock")...)
+		// reported on the outer testing.T: re-running a hanging schedule under rapid's shrinker is pointless
+		rec.Fail(outer, "deadlock", w, "reader, writer and closer goroutines are all parked and the exchange is not finished (deadlock): %+v", *c)
+		return
+	}
+	if hung != "" {
+		rec.Excluded("conc-slow-inconclusive")
+		return
 	}
 	rec.Case(fpr, true, classes...)
 	if res.problem != "" {
@@ -618,7 +661,7 @@ func c21GenConc(rt *rapid.T) *c21Conc {
 }
 
 func TestC21(t *testing.T) {
-	rec := ev.New("C21", "sequential: 1..40 ops (write 0..cap+2 bytes, read 0..cap+2, CloseWithError/CloseWithErrorAndCode/BreakWithError with EOF|A|B, Release, next pipe from the same pool, Err/Done) on NewPipeWithSize(1..24) or pooled pipes, against a byte-queue model; blocking reads are only issued when the model has data/closure. concurrent: writer (window-limited like h2 flow control) + reader + closer goroutines with generated chunk/yield plans under -race and a 10s+30s watchdog. non-trivial: a write slides unread data (r>0) or a close arrives with buffered data; every concurrent case; distinct by op list")
+	rec := ev.New("C21", "sequential: 1..40 ops (write 0..cap+2 bytes, read 0..cap+2, CloseWithError/CloseWithErrorAndCode/BreakWithError with EOF|A|B, Release, next pipe from the same pool, Err/Done) on NewPipeWithSize(1..24) or pooled pipes, against a byte-queue model; blocking reads are only issued when the model has data/closure. concurrent: writer (window-limited like h2 flow control) + reader + closer goroutines with generated chunk/yield plans under -race; a hang is reported only as a proven deadlock (all goroutines of the case parked), slowness is inconclusive. non-trivial: a write slides unread data (r>0) or a close arrives with buffered data; every concurrent case; distinct by op list")
 	// deterministic scenarios
 	for _, pooled := range []bool{false, true} {
 		c21RunSeq(t, rec, &c21Case{Cap: 8, Pooled: pooled, Ops: []c21Op{{Op: "write", N: 6}, {Op: "read", N: 4}, {Op: "write", N: 5}, {Op: "read", N: 20}, {Op: "write", N: 8}, {Op: "write", N: 1}, {Op: "close", Err: "A"}, {Op: "read", N: 3}, {Op: "err"}, {Op: "read", N: 9}, {Op: "read", N: 1}, {Op: "release"}, {Op: "read", N: 1}, {Op: "write", N: 1}, {Op: "newpipe"}, {Op: "write", N: 2}, {Op: "read", N: 8}}}, "scenario")
@@ -628,7 +671,7 @@ func TestC21(t *testing.T) {
 		// 1 case in 20 is a concurrent one (scheduled by the Go runtime: the plan is the witness)
 		if rapid.IntRange(0, 19).Draw(rt, "concurrent") == 0 {
 			c := c21GenConc(rt)
-			c21CheckConc(rt, rec, c)
+			c21CheckConc(t, rt, rec, c)
 			return
 		}
 		c := c21GenSeq(rt)
